@@ -457,6 +457,9 @@ static std::string killrun() {
         if (pid == 0) {
             // ---- the writing process
             ::close(fds[0]);
+            struct rlimit rl;
+            rl.rlim_cur = 120; rl.rlim_max = 130;      // a replay that spins must not block the parent for ever
+            ::setrlimit(RLIMIT_CPU, &rl);
             int devnull = ::open("/dev/null", O_WRONLY);
             if (devnull >= 0) { ::dup2(devnull, 1); }
             std::vector<std::vector<std::string>> lines = S.history;
